@@ -60,7 +60,7 @@ inline Json cfg_to_json(const sim::Config& c) {
     j.set("starve_victims", c.starve_victims).set("starve_window", c.starve_window);
     j.set("spurious_rate", c.spurious_rate).set("random_signal", c.random_signal);
     j.set("clock_jump_rate", c.clock_jump_rate).set("clock_jump_ms", (int64_t)c.clock_jump_ms);
-    j.set("clock_step_max_ms", c.clock_step_max_ms).set("step_cap", c.step_cap);
+    j.set("clock_step_max_ms", c.clock_step_max_ms).set("step_cap", c.step_cap).set("post_op_points", c.post_op_points);
     return j;
 }
 inline sim::Config cfg_from_json(const Json& j) {
@@ -78,6 +78,7 @@ inline sim::Config cfg_from_json(const Json& j) {
     c.clock_jump_ms = j.get("clock_jump_ms", 0);
     c.clock_step_max_ms = (int)j.get("clock_step_max_ms", 2);
     c.step_cap = (int)j.get("step_cap", 20000);
+    c.post_op_points = !j.has("post_op_points") || j.at("post_op_points").b;
     return c;
 }
 inline std::string decisions_to_string(const std::vector<sim::Decision>& d) {
